@@ -1,12 +1,4 @@
-// ---- Context / FunctionContext: real type definitions + abstract views ----
-/// stand-in for `pub type Function = Box<dyn Fn(&mut FunctionContext) -> ResolveResult + Send + Sync>` (magic.rs):
-/// `dyn Fn` objects are outside the verifier's reach; a call through one is `__dyn_call` with the assumed `host_spec`.
-#[verifier::external_body]
-pub struct Function { f: Box<dyn for<'x, 'y> Fn(&'x mut FunctionContext<'y>) -> ResolveResult + Send + Sync> }
-//@item interpreter/src/magic.rs :: struct FunctionRegistry
-//@item interpreter/src/context.rs :: enum Context
-//@item interpreter/src/functions.rs :: struct FunctionContext
-
+//@include prelude/ctx_types.rs
 pub type Env = Seq<vstd::map::Map<String, SVal>>;
 pub type Funcs = vstd::map::Map<Seq<char>, Function>;
 
